@@ -21,7 +21,7 @@ import (
 	"golang.org/x/tools/go/packages"
 )
 
-const Version = "instr-v3"
+const Version = "instr-v4"
 
 const modPath = "github.com/robfig/soy"
 
@@ -256,7 +256,18 @@ func (r *rewriter) rewriteFile(f *ast.File) {
 		}
 		return true
 	})
-	astutil.AddNamedImport(r.fset, f, "vrt__", "verif/vrt")
+	used := false
+	ast.Inspect(f, func(n ast.Node) bool {
+		if sel, ok := n.(*ast.SelectorExpr); ok {
+			if id, ok := sel.X.(*ast.Ident); ok && id.Name == "vrt__" {
+				used = true
+			}
+		}
+		return !used
+	})
+	if used {
+		astutil.AddNamedImport(r.fset, f, "vrt__", "verif/vrt")
+	}
 }
 
 // Instrument loads repo, writes instrumented files under outDir and returns
